@@ -106,7 +106,9 @@ pub fn run_case(c: &Case, drv: &mut Drv) -> Outcome {
         }
         let ans = drv.ask(&req);
         let toks: Vec<&str> = ans.split(' ').collect();
-        if toks.len() < 2 || ans == "bad-request" {
+        if ans == "no-model" {
+            model_file = fs.read_file(path).unwrap_or_default();
+        } else if toks.len() < 2 || ans == "bad-request" {
             model_fail.get_or_insert(format!("model rejected request: {ans}"));
         } else {
             let chunks: Vec<Vec<u8>> = toks[2..].iter().filter(|t| !t.is_empty()).filter_map(|t| unhex(t)).collect();
@@ -186,6 +188,8 @@ pub fn run_case(c: &Case, drv: &mut Drv) -> Outcome {
         let ans = drv.ask(&format!("log.readall {}", hex(&file)));
         let toks: Vec<&str> = ans.split(' ').collect();
         let n: Option<usize> = toks.first().and_then(|t| t.parse().ok());
+        if ans == "no-model" {
+        } else {
         match n {
             None => model_fail = Some(format!("model readall rejected: {}", &ans[..ans.len().min(80)])),
             Some(n) => {
@@ -194,6 +198,7 @@ pub fn run_case(c: &Case, drv: &mut Drv) -> Outcome {
                     model_fail = Some(format!("model reader returns {} records, implementation {}", n, got_recs.len()));
                 }
             }
+        }
         }
     }
     Outcome { oracle_fail, model_fail, file_len: file.len(), nrecs: expected.len() }
